@@ -263,6 +263,46 @@ pub fn check_line(
             std::str::from_utf8(a).map_or(false, |s| adjacent_names.iter().any(|n| n == s))
         })
     };
+    // is position p directly inside the contiguous block of an adjacent command - no declared
+    // name of another level between that command's name and p? (Some(false): behind a block, or an earlier block exists)
+    let inside_adj_block = |p: usize| -> Option<bool> {
+        let spell = |l: &NamedSpec| -> Vec<String> {
+            l.longs
+                .iter()
+                .map(|x| format!("--{}", x))
+                .chain(l.shorts.iter().map(|x| format!("-{}", x)))
+                .collect()
+        };
+        let all: Vec<String> = level.body.named_leaves(true).iter().flat_map(|l| spell(l)).collect();
+        let mut between: Vec<String> = Vec::new();
+        for j in (0..p).rev() {
+            let s = String::from_utf8_lossy(&argv[j]).into_owned();
+            if let Some(c) = level
+                .body
+                .commands(true)
+                .into_iter()
+                .find(|c| c.adjacent && c.all_names().iter().any(|n| *n == s))
+            {
+                let own: Vec<String> =
+                    c.level.body.named_leaves(true).iter().flat_map(|l| spell(l)).collect();
+                let foreign = between.iter().any(|w| {
+                    let head = w.split('=').next().unwrap_or("").to_owned();
+                    let hit = |names: &Vec<String>| {
+                        names.iter().any(|n| {
+                            *n == head
+                                || (n.chars().count() == 2 && w.starts_with(n.as_str()) && !w.starts_with("--"))
+                        })
+                    };
+                    hit(&all) && !hit(&own)
+                });
+                // an earlier block that fails is the recorded finding as well
+                let earlier_block = adj_left(j);
+                return Some(!foreign && !earlier_block);
+            }
+            between.push(s);
+        }
+        None
+    };
     let strip_usage = |t: &str| -> String {
         let mut out = String::new();
         let mut skipping = false;
@@ -415,7 +455,11 @@ pub fn check_line(
             Outcome::Stderr(t) => {
                 let depth = exact_at(level, argv, p).0.len();
                 return Verdict::fail(
-                    if adj_left(p) {
+                    if adj_left(p) && inside_adj_block(p) == Some(true) {
+                        // nothing of another level between the command name and the flag: not
+                        // the recorded finding (that one needs a foreign item splitting the block)
+                        "help-loses-to-error/inside-the-block-of-an-adjacent-command".to_owned()
+                    } else if adj_left(p) {
                         SIG_BEHIND_ADJACENT.to_owned()
                     } else {
                         format!(
